@@ -17,6 +17,7 @@ pub struct Run {
     pub edges: Vec<EdgeId>,
     nidx: HashMap<u64, usize>,
     eidx: HashMap<u64, usize>,
+    pub sample_disk: bool,
 }
 
 fn si(s: &str) -> usize {
@@ -43,7 +44,7 @@ impl Run {
     pub fn new() -> Self {
         let db = GrafeoDB::new_in_memory();
         let sess = (0..SESS.len()).map(|_| Some(db.session())).collect();
-        Self { db, sess, nodes: vec![], edges: vec![], nidx: HashMap::new(), eidx: HashMap::new() }
+        Self { db, sess, nodes: vec![], edges: vec![], nidx: HashMap::new(), eidx: HashMap::new(), sample_disk: false }
     }
     fn s(&self, i: usize) -> &Session {
         self.sess[i].as_ref().unwrap()
@@ -112,7 +113,42 @@ impl Run {
             let o: Vec<J> = self.nodes.iter().map(|id| json!(self.s(i).get_neighbors_incoming(*id).iter().map(|(n, e)| json!([self.n_of(n.as_u64() as i64), self.e_of(e.as_u64() as i64)])).collect::<Vec<_>>())).collect();
             ni.insert(name.to_string(), json!(o));
         }
-        json!({"ls": ls, "as": as_, "gt": gt, "ex": ex, "no": no, "ni": ni, "nc": self.db.node_count(), "ec": self.db.edge_count()})
+        // C07: copies of the database
+        let dump_copy = |c: &GrafeoDB| -> (Vec<J>, Vec<J>) {
+            let mut xn: Vec<J> = c.iter_nodes().map(|n| json!([self.n_of(n.id.as_u64() as i64), n.get_property("k").map(int).unwrap_or(0), labcode_strs(n.labels.iter().map(|l| l.as_str()))])).collect();
+            let mut xe: Vec<J> = c.iter_edges().map(|e| json!([self.e_of(e.id.as_u64() as i64), self.n_of(e.src.as_u64() as i64), self.n_of(e.dst.as_u64() as i64)])).collect();
+            xn.sort_by_key(|v| v.to_string());
+            xe.sort_by_key(|v| v.to_string());
+            (xn, xe)
+        };
+        let before = dump_copy(&self.db);
+        let bytes1 = self.db.export_snapshot().unwrap_or_default();
+        let bytes2 = self.db.export_snapshot().unwrap_or_default();
+        let mut xok = bytes1 == bytes2;
+        let (xn, xe) = match GrafeoDB::import_snapshot(&bytes1) {
+            Ok(c) => dump_copy(&c),
+            Err(_) => { xok = false; (vec![], vec![]) }
+        };
+        match self.db.to_memory() {
+            Ok(c) => { let d = dump_copy(&c); if d.0 != xn || d.1 != xe { xok = false; } }
+            Err(_) => xok = false,
+        }
+        if self.sample_disk {
+            let dir = std::env::temp_dir().join(format!("gv-c07-{}", std::process::id()));
+            let _ = std::fs::remove_dir_all(&dir);
+            match self.db.save(&dir) {
+                Ok(()) => {
+                    match GrafeoDB::open(&dir) { Ok(c) => { let d = dump_copy(&c); if d.0 != xn || d.1 != xe { xok = false; } let _ = c.close(); } Err(_) => xok = false }
+                    match GrafeoDB::open_in_memory(&dir) { Ok(c) => { let d = dump_copy(&c); if d.0 != xn || d.1 != xe { xok = false; } } Err(_) => xok = false }
+                }
+                Err(_) => xok = false,
+            }
+            let _ = std::fs::remove_dir_all(&dir);
+        }
+        // the source is left unchanged by all of this
+        if dump_copy(&self.db) != before { xok = false; }
+        json!({"ls": ls, "as": as_, "gt": gt, "ex": ex, "no": no, "ni": ni, "nc": self.db.node_count(), "ec": self.db.edge_count(),
+               "xn": xn, "xe": xe, "xok": xok})
     }
 
     /// Executes one action; returns the event (with observations) or None if the action was skipped.
@@ -257,10 +293,13 @@ pub fn main(o: &Opts) -> i32 {
         }
     }
     let mut ntr = 0;
+    let disk_every = o.usize("disk-every", 0);
     for s in &scripts {
         out.emit(&json!({"a": "reset"}));
         let mut run = Run::new();
-        for act in s {
+        for (ai, act) in s.iter().enumerate() {
+            // save(path)+open / open_in_memory are sampled (file I/O), the in-memory copies are taken after every action
+            run.sample_disk = disk_every > 0 && ai % disk_every == disk_every - 1;
             let ev = run.step(act);
             out.emit(&ev);
         }
